@@ -30,6 +30,10 @@ def run(ctx):
              'declares (reference decoder in sa/specs/formats.py)')
     rep.rule('R7.2', 'while the structure carrying the size has not been '
              'captured virtual_size is 0 and never raises')
+    rep.rule('R7.3', 'from_file presents every chunk it reads (a final '
+             'short one included) until the inspector is complete, then '
+             'finishes it')
+    _from_file(ctx)
     reg = _insp.registry(ctx)
     tasks, imgs, meta = [], {}, {}
     for fmt in FORMATS + ('raw',):
@@ -123,3 +127,100 @@ def run(ctx):
                       case=None if b is None else {'image': b[0],
                                                    'schedule': b[1],
                                                    'chunk': b[2]})
+
+
+def _from_file(ctx):
+    """FileInspector.from_file on a scripted file: reads of 512, 512 and
+    100 bytes, then the empty read; the inspector (a stand-in) becomes
+    complete with the k-th chunk."""
+    from ..core.absint import AbsRaise
+    from ..core.table import extract, inexact_notes
+    from ..core.termeval import ev, CannotEval, Raised
+    from ..core.values import K, T, Obj, AbsFunc, show
+    from .c06 import standin, source
+    rep, world = ctx.report, ctx.world
+    f = world.func(M.MOD, 'FileInspector.from_file')
+    rep.analysed('imageutils.format_inspector.FileInspector.from_file',
+                 'imageutils.format_inspector._chunked_reader')
+
+    def len_hook(v, val):
+        if isinstance(v, T) and v.op == 'call' and v.args[0] == 'len' and \
+                len(v.args) == 2 and isinstance(v.args[1], T) and \
+                v.args[1].op == 'sym' and str(
+                    v.args[1].args[0]).startswith('chunk'):
+            return 100 if str(v.args[1].args[0]) == 'chunk2' else 512
+        return NotImplemented
+    for complete_at, match in ((0, True), (1, True), (2, True), (2, False),
+                               (None, True)):
+        flags = tuple(complete_at is not None and i >= complete_at
+                      for i in range(3))
+        plan = {'complete': flags, 'match': (match,)}
+        label = 'complete with chunk %s, match %s' % (complete_at, match)
+        holder = {}
+
+        def thunk(interp):
+            insp = standin('x', plan, None)
+            holder['insp'] = insp
+            src = source(3, 'file')
+            src.fields['__enter__'] = AbsFunc('__enter__',
+                                              lambda i, a, k: src)
+            src.fields['__exit__'] = AbsFunc(
+                '__exit__', lambda i, a, k: (i.effect('file.exit'),
+                                             K(None))[1])
+
+            def on_call(i, name, fv, args, kwargs):
+                if name == 'open':
+                    return src
+                return NotImplemented
+            interp.on_call = on_call
+
+            def on_attr(i, base, name):
+                if isinstance(base, Obj) and hasattr(base, 'dyn') and \
+                        name in base.dyn:
+                    return base.dyn[name]()
+                return None
+            interp.on_attr = on_attr
+
+            def decide(i, t):
+                if isinstance(t, T) and t.op == 'sym' and \
+                        str(t.args[0]).startswith('chunk'):
+                    return True
+                if isinstance(t, T) and t.op in ('cmp', 'not') and \
+                        'len(chunk' in show(t):
+                    try:
+                        return bool(ev(t, {}, [len_hook]))
+                    except (CannotEval, Raised):
+                        return None
+                return None
+            interp.decide = decide
+            factory = AbsFunc('inspector class', lambda i, a, k: insp)
+            return interp.call(f.bind(factory), [T('sym', 'filename')])
+        old = world.loop_bound
+        world.loop_bound = 6
+        try:
+            outcomes, _i = extract(world, thunk, depth=7)
+        finally:
+            world.loop_bound = old
+        key = 'from_file[%s]' % label
+        notes = inexact_notes(outcomes)
+        if notes or len(outcomes) != 1:
+            rep.undecided('R7.3', key, '%d paths %s' % (len(outcomes),
+                                                        notes))
+            continue
+        o = outcomes[0]
+        fed = [show(e[2]) for e in o.effects if e[0] == 'eat']
+        fin = [e for e in o.effects if e[0] == 'finish']
+        n_want = 3 if complete_at is None else complete_at + 1
+        want_fed = ['chunk%d' % i for i in range(n_want)]
+        if complete_at is None or not match:
+            ok = o.kind == 'raise' and o.exc_class == 'ImageFormatError'
+            what = 'ImageFormatError'
+        else:
+            ok = o.kind == 'return' and o.value is holder['insp']
+            what = 'the inspector'
+        rep.case({'case': label, 'fed': fed, 'outcome': o.brief()},
+                 (key, tuple(fed), o.kind))
+        rep.check('R7.3', key, ok and fed == want_fed and len(fin) == 1,
+                  '%s: required chunks %s presented, one finish(), result '
+                  '%s; found %s presented, %d finish(), %s' % (
+                      label, want_fed, what, fed, len(fin), o.brief()))
